@@ -260,7 +260,7 @@ def run(ctx):
                     small, obs = pr, a2
                     break
             ck = obs.split("checks=")[1].split(":")
-            sig = "pool:" + ck[0] + ":" + (ck[3] if ck[0] == "eq-vs-structure" and len(ck) > 3 else (ck[1] if len(ck) > 1 else ""))
+            sig = "pool:" + ck[0] + ("" if ck[0] in ("hash", "raised", "set-size", "dict-size") else ":" + (ck[3] if ck[0] == "eq-vs-structure" and len(ck) > 3 else (ck[1] if len(ck) > 1 else "")))
             pfam.report(ctx, sig, {"kind": "input", "command": "POOL", "dialect": d, "input": small[0], "pool": small, "observed": obs[:300],
                                                                               "detail": obs.split("checks=")[1],
                                                                               "oracle": "c11: two nodes are == exactly when they have the same class and the same canonical dump, equal nodes hash equal, a set keeps exactly the distinct structures",
